@@ -32,6 +32,8 @@ def run(tier, seed):
                  ["commonmark", "cm+table+strike"], "all concatenations of <= k pieces over {*, **, _, ~~, ~, a, space, [, ](x), b}", "delimiter universe")
     import contracts.linkc as LK
     deductive(rep, "C02", LK.FUNCS, "contracts.linkc")
+    import contracts.rxrules as RXR
+    deductive(rep, "C02", [RXR.QE, RXR.QH], "contracts.rxrules")
     import contracts.fragjoin as FJ
     deductive(rep, "C02", FJ.FUNCS, "contracts.fragjoin")
     inline_universe(rep, "vf.checks:inline_contracts", tier, "fragments_join", "requires/ensures of the fragments_join contract evaluated natively at every call (validates the text-neutral precondition)", quick_k=3, thorough_k=4)
